@@ -15,6 +15,10 @@ func checks() []check {
 		{ID: "C09", Level: "model_checking", Parts: []part{
 			{Name: "gc-store-vs-pods", Pkg: "daemon", Run: "^TestVerifC09$", Sets: []string{"weave"}, Weave: []string{"daemon", "pkg/eni", "pkg/storage"}, Netns: true, ShardsQ: 12, ShardsT: 16},
 		}},
+		{ID: "C05", Level: "fault_enumeration", Parts: []part{
+			{Name: "bolt-torn-writes", Pkg: "pkg/storage", Run: "^TestVerifC05Torn$", ModRepl: map[string]string{"github.com/boltdb/bolt@v1.3.1/bolt_linux.go": "harness/modcache/bolt/bolt_linux.go"}},
+			{Name: "crash-points", Pkg: "daemon", Run: "^TestVerifC05Crash$", Sets: []string{"weave"}, Weave: []string{"daemon", "pkg/eni", "pkg/storage"}, Netns: true, ShardsQ: 16, ShardsT: 16},
+		}},
 		{ID: "C06", Level: "model_checking", Parts: []part{
 			{Name: "pool-quota-monitor", Pkg: "pkg/eni", Run: "^TestVerifC06$", Sets: []string{"weave"}, Weave: []string{"pkg/eni"}, ShardsQ: 16, ShardsT: 16},
 		}},
